@@ -108,7 +108,7 @@ def run_cli(schema_path: str, base_url: str, run: dict) -> dict:
         elif re.match(r"^- [A-Z]", line):
             failures.add(json.dumps([phase, section, "cli", line[2:].strip(), "", "", "", 0]))
     failures.add(json.dumps([phase, "", "cli", "exit code %d" % result.exit_code, "", "", "", 0]))
-    return {"tag": run["tag"], "failures": sorted(failures), "events": 0}
+    return {"tag": run["tag"], "failures": sorted(failures), "events": 0, "output_tail": result.output[-2500:]}
 
 
 def neutralise_local_constants() -> bool:
